@@ -38,6 +38,10 @@ func mkMsg(kind string, cl int) alphh.Msg {
 		m.Payload, m.Target = alphh.AttestPayload(tokenID, 8, "SYM", "Token name"), "0"
 	case "attest-mismatching":
 		m.Payload, m.Target = alphh.AttestPayload(tokenID, 9, "SYM", "Token name"), "0"
+	case "attest-symbol-interior-nul": // the contract's symbol with a zero byte in the middle: another text
+		m.Payload, m.Target = alphh.AttestPayload(tokenID, 8, "SY\x00M", "Token name"), "0"
+	case "attest-name-interior-nul":
+		m.Payload, m.Target = alphh.AttestPayload(tokenID, 8, "SYM", "Token\x00 name"), "0"
 	case "foreign-sender":
 		m.Sender = alphh.OtherID
 	case "lookalike-other-contract":
@@ -82,7 +86,7 @@ func bases() []scenario {
 		add("transfer", cl, false)
 		add("transfer", cl, true)
 	}
-	for _, k := range []string{"attest-matching", "attest-mismatching", "foreign-sender", "lookalike-other-contract", "other-contract-index1"} {
+	for _, k := range []string{"attest-matching", "attest-mismatching", "attest-symbol-interior-nul", "attest-name-interior-nul", "foreign-sender", "lookalike-other-contract", "other-contract-index1"} {
 		add(k, 2, false)
 		add(k, 2, true)
 	}
